@@ -295,7 +295,7 @@ class Machine:
         if key in st.store:
             return st.store[key]
         kind = self.kind_of_name(name)
-        if self.dialect == "b09" and self.init_mode == "zero" and key not in st.defined:
+        if self.dialect == "b09" and self.init_mode == "zero" and key not in st.defined and not key.startswith(("PLAY.", "DISPLAY.", "ERRNUM")):
             st.trace.append(("uninitialised-read", key))
         if self.dialect == "b09" and key.startswith("TMP_") and key not in st.defined:
             st.trace.append(("tmp-read-before-write", key))
@@ -313,6 +313,9 @@ class Machine:
             elem = self.sem.sort_of(kind)
             if self.init_mode == "symbolic":
                 arr = z3.Const("init_" + key, z3.ArraySort(z3.StringSort(), elem))
+            elif self.dialect == "b09":
+                # storage of a BASIC09 array is whatever was in memory: a fresh unknown value per array
+                arr = z3.K(z3.StringSort(), self.sem.const("undef_" + key, kind))
             else:
                 arr = z3.K(z3.StringSort(), self.sem.num(0.0) if kind == "n" else z3.StringVal(""))
             st.arrays[key] = arr
@@ -655,7 +658,8 @@ class Machine:
             limit = self.num(st, ins[3])
             step = self.num(st, ins[4]) if ins[4] is not None else sem.num(1.0)
             self.assign(st, var, start)
-            st.trace.append(("for", limit, step))
+            if not var[1].upper().startswith("TMP_"):
+                st.trace.append(("for", limit, step))
             body = st.pc + 1
             if self.dialect == "b09":
                 v = self.as_num(self.read_var(st, var[1]) if var[0] == "var" else self.ev(st, var))
